@@ -217,3 +217,34 @@ Proof.
     + split; vm_compute; reflexivity.
   - split; vm_compute; reflexivity.
 Qed.
+
+(* ------------------------------------------------------------------ final pass: group opacity in bytes (C14_opacity_layer)
+   opacity_u8 / opacity_of_byte: C15's exact-binary32 model of draw_pixmap with PixmapPaint { opacity } over a transparent
+   destination (Model/ClipMask.v, read-only; complete correspondence with the real tiny-skia: c15-table opacity). *)
+From RV Require Import Model.F32 Model.ClipMask Proofs.ClipNest Proofs.Opacity8.
+Local Open Scope Z_scope.
+(* opacity 0 erases a layer exactly, opacity 1 is bit-exact (consistent with C14_nested_isolation_exact): all 256 bytes *)
+Theorem C14_opacity_layer_zero : forall c, is_byte c -> opacity_u8 c (opacity_of_byte 0) = 0.
+Proof. exact opacity_zero_exact. Qed.
+Print Assumptions C14_opacity_layer_zero.
+Theorem C14_opacity_layer_one : forall c, is_byte c -> opacity_u8 c (opacity_of_byte 255) = c.
+Proof. exact opacity_one_exact. Qed.
+Print Assumptions C14_opacity_layer_one.
+(* nested groups, inner opacity a, outer opacity b (bytes / 255): outer 0 erases, outer 1 passes the inner layer through *)
+Theorem C14_opacity_nested_outer_zero : forall c a, is_byte c -> is_byte a -> nest_two c (nest_row 0 a) = 0.
+Proof. exact nested_outer_zero. Qed.
+Print Assumptions C14_opacity_nested_outer_zero.
+Theorem C14_opacity_nested_outer_one : forall c a, is_byte c -> is_byte a ->
+  nest_two c (nest_row 255 a) = opacity_u8 c (opacity_of_byte a).
+Proof. exact nested_outer_one. Qed.
+Print Assumptions C14_opacity_nested_outer_one.
+(* two layers (a, then b) against one layer with the f32 product a * b: within ONE level for all 65 536 (channel, a) pairs at
+   outer opacity b = 128/255.  PARTIAL: proved for this b only (one complete sweep costs ~4 min of vm_compute; all 2^24
+   (c, a, b) triples do not fit); an exact-f32 enumeration of all triples outside Coq gives the same maximum 1, reached e.g.
+   at (c, a, b) = (64, 254, 2) - C14_opacity_layer_attained *)
+Theorem C14_opacity_layer_partial : forall c a, is_byte c -> is_byte a ->
+  Z.abs (nest_two c (nest_row 128 a) - nest_one c (nest_row 128 a)) <= 1.
+Proof. exact nested_opacity_128. Qed.
+Print Assumptions C14_opacity_layer_partial.
+Example C14_opacity_layer_attained : nest_two 64 (nest_row 2 254) = 1 /\ nest_one 64 (nest_row 2 254) = 0.
+Proof. exact nested_opacity_attained. Qed.
